@@ -24,6 +24,7 @@ func writeEvidence(prop, tier string, seed int, results []*HarnessResult, wall f
 	known := []string{}
 	inconclusive := []string{}
 	events, threads := 0, 0
+	states, steps, replays := 0, 0, 0
 	for _, r := range results {
 		if r == nil {
 			continue
@@ -36,6 +37,9 @@ func writeEvidence(prop, tier string, seed int, results []*HarnessResult, wall f
 		feas += r.FeasQ
 		events += r.Events
 		threads += r.Threads
+		states += r.Forks + 1
+		steps += r.Steps
+		replays += r.Replays
 		for _, f := range r.Funcs {
 			funcs[f] = true
 		}
@@ -124,6 +128,10 @@ func writeEvidence(prop, tier string, seed int, results []*HarnessResult, wall f
 		"known_findings_seen":  known,
 		"not_discharged":       inconclusive,
 		"exhaustive":           false,
+		"states":                        states,
+		"transitions":                   steps,
+		"traces_validated_against_impl": replays,
+		"states_rule":                   "states = symbolic states created (initial state of every harness plus one per fork); transitions = SSA instructions executed symbolically; traces_validated_against_impl = solver counterexamples replayed natively in this run (0 when nothing was violated)",
 		"explanation":          "bounded symbolic execution of the go/ssa form of the listed functions; every obligation decided by an SMT solver for all values of the symbolic inputs inside the stated bounds",
 	}
 	if events > 0 {
